@@ -65,6 +65,7 @@ func c14Finder(run *Run, j *histJob) {
 	if ri := replyOf(r); ri.Mixed != "" && (ri.FirstKind == "hijack" || ri.FirstKind == "direct") {
 		run.Fail("C14:local-reply-followed-by-upstream-body", "the client was sent "+ri.Mixed, replay)
 	}
+	sendChainFinder(run, j, replay)
 	denied, term := false, false
 	deniedAt := -1
 	lastPhase, lastIdx, lastVerdict := -1, -1, ""
@@ -129,6 +130,53 @@ func c14Finder(run *Run, j *histJob) {
 	}
 }
 
+// every reply that reaches the client has passed the send-filter chain: the first send filter of the chain was handed exactly the
+// response whose headers were then written downstream (unless a send filter itself produced that reply, or terminated the stream)
+func sendChainFinder(run *Run, j *histJob, replay map[string]interface{}) {
+	r, sp := j.res, j.spec
+	first := -1
+	for i, f := range sp.Filters {
+		if f.Send {
+			first = i
+			break
+		}
+	}
+	if first < 0 || sp.Oneway {
+		return
+	}
+	written, ran, sawWritten, bySendFilter := "", 0, false, false
+	var seen []string
+	for _, x := range r.Rec {
+		switch x.Kind {
+		case "filter.send":
+			if x.K == first {
+				ran++
+				seen = append(seen, x.Seen)
+			}
+			if x.Aux == "hijack" || x.Aux == "direct" || x.Aux == "term" {
+				bySendFilter = true
+			}
+		case "down.hdr":
+			if written == "" {
+				written = fmt.Sprintf("%s:%d", x.Aux, x.Code)
+				for _, s := range seen {
+					if s == written {
+						sawWritten = true
+					}
+				}
+			}
+		}
+	}
+	if written == "" || sawWritten || bySendFilter {
+		return
+	}
+	if ran == 0 {
+		run.Fail("C14:reply-skipped-send-filters", fmt.Sprintf("the reply %s was written downstream although no send filter ever ran on this stream", written), replay)
+		return
+	}
+	run.Fail("C14:send-filter-ran-on-discarded-response-only", fmt.Sprintf("the reply %s - the only response the client gets - was written downstream without passing the send filters: send filter #%d was handed %v only", written, first, seen), replay)
+}
+
 func genC14(run *Run) []*Spec {
 	r := run.R
 	var specs []*Spec
@@ -180,6 +228,27 @@ func genC14(run *Run) []*Spec {
 			sp2.Filters = []FilterSpec{{Phase: 0}, {Send: true, Code: 470, Verdicts: []string{"continue", sv}}}
 			specs = append(specs, sp2)
 		}
+	}
+	// the re-attempt of a retry cannot start (no healthy host left at retry time): the local 502 is produced in the retry phase,
+	// after the retried response has already gone through the send filters; also after a per-try time-out, a connect failure
+	for _, fl := range []string{"", "http"} {
+		for _, sv := range []string{"continue", "stop", "hijack", "direct"} {
+			sp := &Spec{Flavour: fl, Route: "forward", NHosts: 2, RouteGlobalMs: 5 * slot, RetryOn: true, NumRetries: 2, HostsGoneAfter: 1,
+				Filters: []FilterSpec{{Phase: 0}, {Send: true, Code: 470, Verdicts: []string{"continue", sv}}, {Send: true}},
+				Events:  []Event{{AtMs: slot, Kind: "upresp", K: 0, Status: 503, Data: r.Intn(2) == 0}}}
+			specs = append(specs, sp)
+		}
+		specs = append(specs,
+			&Spec{Flavour: fl, Route: "forward", NHosts: 2, RouteGlobalMs: 5 * slot, RouteTryMs: slot, RetryOn: true, NumRetries: 2, HostsGoneAfter: 1,
+				Filters: []FilterSpec{{Send: true}, {Send: true}}},
+			&Spec{Flavour: fl, Route: "forward", NHosts: 2, RouteGlobalMs: 5 * slot, RetryOn: true, NumRetries: 3, HostsGoneAfter: 2, StatusCodes: []int{503},
+				Filters: []FilterSpec{{Phase: 1}, {Send: true}},
+				Events:  []Event{{AtMs: slot, Kind: "upresp", K: 0, Status: 503}, {AtMs: 2 * slot, Kind: "upresp", K: 1, Status: 503, Data: true}}},
+			&Spec{Flavour: fl, Route: "forward", NHosts: 2, RouteGlobalMs: 5 * slot, RetryOn: true, NumRetries: 2, HostsGoneAfter: 1, HasData: true,
+				Filters: []FilterSpec{{Send: true}},
+				Events:  []Event{{AtMs: slot, Kind: "upreset", K: 0, Reason: "termination"}}},
+			&Spec{Flavour: fl, Route: "forward", NHosts: 2, RouteGlobalMs: 5 * slot, NumRetries: 2, HostsGoneAfter: 1, Pool: []string{"connfail"},
+				Filters: []FilterSpec{{Send: true}, {Send: true}}})
 	}
 	// a filter's direct response with a body, then TerminateStream (a body-less hijack) before it is sent: slow send filter
 	specs = append(specs, &Spec{Route: "forward", NHosts: 2, RouteGlobalMs: 3 * slot,
@@ -301,6 +370,10 @@ func c14(args []string) int {
 			map[string]interface{}{"first": pj.a, "second": pj.b, "rec_first": pj.ra.Rec, "rec_second": pj.rb.Rec})
 	}
 	psh.Close()
+	// sequences of requests re-using the pooled downStream object
+	if rc := seqPart(run, 840000, c14Finder); rc != 0 {
+		return rc
+	}
 	// the built-in deny filters: histories of several streams of one factory
 	if rc := builtinPart(run); rc != 0 {
 		return rc
